@@ -2,7 +2,7 @@
 # usage: confirm_seed.sh <dir with patch.diff demo_test.go meta.json> <name>
 # Confirms in a scratch worktree of /repo HEAD: patch applies, builds, suite passes with it, demo fails with it, demo passes without.
 set -u
-src="$1"; name="$2"
+src="$1"; name="$2"; RACE="${3:-}"
 export GOFLAGS=-mod=mod GOPROXY=off GOSUMDB=off GOTOOLCHAIN=local; unset GOWORK
 wt=/tmp/confirm_$name
 rm -rf "$wt"; git -C /repo worktree prune
@@ -24,8 +24,8 @@ if git apply --check "$src/patch.diff" 2>/dev/null; then
   cp "$src/demo_test.go" "$ddir/zz_demo_test.go"
   # run only the demo's tests
   tests=$(grep -o '^func Test[A-Za-z0-9_]*' "$src/demo_test.go" | sed 's/func //' | paste -sd'|')
-  if (cd "$ddir" && go test -vet=off -count=1 -run "^($tests)\$" . >/tmp/confirm_$name.mut.log 2>&1); then mut=PASS_unexpected; else mut=fails; fi
-  if (cd "$ddir" && git stash -q && cp "$src/demo_test.go" zz_demo_test.go && go test -vet=off -count=1 -run "^($tests)\$" . >/tmp/confirm_$name.clean2.log 2>&1); then clean2=pass; else clean2=FAIL; fi
+  if (cd "$ddir" && go test $RACE -vet=off -count=1 -run "^($tests)\$" . >/tmp/confirm_$name.mut.log 2>&1); then mut=PASS_unexpected; else mut=fails; fi
+  if (cd "$ddir" && git stash -q && cp "$src/demo_test.go" zz_demo_test.go && go test $RACE -vet=off -count=1 -run "^($tests)\$" . >/tmp/confirm_$name.clean2.log 2>&1); then clean2=pass; else clean2=FAIL; fi
   res="applies=yes build=$build suite_with_patch=$suite demo_with_patch=$mut demo_clean=$clean2"
 fi
 echo "$name: $res"
